@@ -159,8 +159,37 @@ fn closest_var(bad: &str) -> usize {
     best.1
 }
 
+/// A short run of the bytes that delimit something in the format or in
+/// `str::lines` ('=', CR, blank, tab) put into a value: at its start, in
+/// its middle or at its end.  Every such byte after the first '=' of the line
+/// belongs to the value.  (A CR directly in front of the line feed is left
+/// out: whether it belongs to the value or to the line end is not stated.)
+fn delimiter_cluster(r: &mut Rng, text: &str) -> String {
+    let n = r.range(1, 3);
+    let mut c: String = (0..n).map(|_| *r.pick(&['\r', '=', ' ', '\t', '=', '\r'])).collect();
+    let cut = match r.below(3) {
+        0 => 0,
+        1 => text.char_indices().nth(text.chars().count() / 2).map(|(i, _)| i).unwrap_or(0),
+        _ => text.len(),
+    };
+    if cut == text.len() {
+        while c.ends_with('\r') {
+            c.pop();
+            c.push('=');
+        }
+    }
+    format!("{}{c}{}", &text[..cut], &text[cut..])
+}
+
 fn base_complete(r: &mut Rng) -> (Vec<Line>, Entry) {
-    let (lines, _) = gs::wellformed(r, true);
+    let (mut lines, _) = gs::wellformed(r, true);
+    if r.chance(1, 5) {
+        let idx: Vec<usize> = (0..lines.len()).filter(|&i| VARS[lines[i].var].kind != crate::oracle::summary::Kind::I && !lines[i].text.ends_with('\r')).collect();
+        if !idx.is_empty() {
+            let i = *r.pick(&idx);
+            lines[i].text = delimiter_cluster(r, &lines[i].text);
+        }
+    }
     let want = os::fold(&lines).expect("harness bug: generated integer line is not an integer");
     assert!(want.is_complete(), "harness bug: complete text is not complete");
     (lines, want)
